@@ -27,6 +27,9 @@ class Tables:
             for f in init['fields']:
                 nm = ft[f['off']][0]
                 vals[nm] = f['v']
+            missing = [nm for nm in ('name', 'name_en', 'separator', 'is_sorted', 'has_prefix', 'has_accents', 'compose', 'words') if nm not in vals]
+            if missing:
+                raise AnalysisBroken('language table %s: fields %s are not plain struct members in the compiled layout (bit-fields / renamed?)' % (g['name'], missing))
             for nm in ('name', 'name_en', 'separator'):
                 setattr(L, nm, self.cstr(vals[nm]))
             for nm in ('is_sorted', 'has_prefix', 'has_accents', 'compose'):
